@@ -148,6 +148,7 @@ func runAction(t *T, action func(*T)) (invalid bool, skipped bool) {
 	defer func(draws int) {
 		if r := recover(); r != nil {
 			if _, ok := r.(invalidData); ok {
+				t.failOnError() // a rejected action is pruned from the recorded test case: its failure can not wait
 				invalid = true
 				skipped = t.draws == draws
 			} else {
